@@ -118,8 +118,10 @@ class Source(PartHandler):
         '''
         assert_is_instance(value, int)
         was_empty = self._max_produced_parts - self._produced_parts < 1
-        # Maximum parts to produce can't be lower than produced parts.
-        self._max_produced_parts = max(self._max_produced_parts + value, self._produced_parts)
+        self._max_produced_parts += value
+        if value < 0:
+            # A decrease can't take the maximum below the produced parts.
+            self._max_produced_parts = max(self._max_produced_parts, self._produced_parts)
         if was_empty:
             self._schedule_pass_part_downstream()
 
